@@ -484,7 +484,77 @@ def server_scenarios(seed, tier):
     return out
 
 
+def c08_scenarios(seed, tier):
+    """synthetic encodings of the documented layout with boundary field elements (0, 1, p-1, p,
+    p+1, 2^128, 2^192-1, high bytes set), truncations, trailing bytes, spliced shares and edited
+    length prefixes; expected verdict and canonical form from the independent reference parser"""
+    from vlib import refparse
+    rnd = random.Random(seed)
+    le = lambda v: v.to_bytes(24, "little")
+    elems = [0, 1, 12450, P - 1, P, P + 1, 2**128, 2**128 + 12452, 2**129, 2**192 - 1, 2**64, rnd.randrange(P), (1 << 191)]
+    cases = []
+
+    def add(fn, b):
+        ref = {"sharks": refparse.sharks, "share": refparse.share, "message": refparse.message}[fn](b)
+        c = {"kind": "c08_decode", "fn": fn, "bytes": b.hex(), "expect_accept": ref is not None}
+        if ref is not None:
+            c["expect_canon"] = ref.hex()
+        cases.append(c)
+    # Shamir shares: x | y* with every boundary element at every position, tails of 0..23 bytes
+    for e in elems:
+        add("sharks", le(e))
+        add("sharks", le(5) + le(e))
+        add("sharks", le(e) + le(7))
+        add("sharks", le(5) + le(6) + le(e))
+        add("sharks", le(5) + le(e) + le(6))
+    for tail in (1, 7, 23):
+        add("sharks", le(5) + le(6) + bytes([0xaa] * tail))
+        add("sharks", le(5)[:24 - tail])
+    add("sharks", b"")
+
+    def mk_share(t, sh, c, d, j=None):
+        st = lambda x: len(x).to_bytes(4, "little") + x
+        return t.to_bytes(4, "little") + st(sh) + st(c) + st(d) + (j if j is not None else bytes([0x5a] * 64))
+    base_sh = le(3) + le(99)
+    good = mk_share(2, base_sh, b"\x01\x02\x03", b"\x04")
+    add("share", good)
+    for e in elems:
+        add("share", mk_share(2, le(e) + le(9), b"\x01", b""))
+        add("share", mk_share(1, le(4) + le(e), b"", b"\x02\x03"))
+    for n in range(0, len(good) + 1, 1 if tier != "quick" else 3):
+        add("share", good[:n])
+    for extra in (1, 4, 64, 65):
+        add("share", good + bytes([0x11] * extra))
+        add("share", mk_share(2, base_sh, b"\x01", b"\x02", bytes([0x5a] * 64) + bytes(extra)))
+    add("share", mk_share(2, base_sh, b"", b"", bytes([0x5a] * 63)))
+    add("share", mk_share(2, base_sh + b"\x00" * 5, b"\x01", b"\x02"))       # ignored tail inside the Shamir chunk
+    add("share", mk_share(0xffffffff, le(1), b"", b""))
+    for off in (4, 4 + 4 + len(base_sh), 4 + 4 + len(base_sh) + 4 + 3):
+        for v in (0, 1, 0xffffffff, 0xfffffffc, len(good), len(good) - off - 4):
+            m = bytearray(good)
+            m[off:off + 4] = (v & 0xffffffff).to_bytes(4, "little")
+            add("share", bytes(m))
+    # reports: ciphertext | share | tag
+    st = lambda x: len(x).to_bytes(4, "little") + x
+    msg = st(b"\xc1\xc2\xc3\xc4\xc5") + st(good) + st(bytes([0x77] * 32))
+    add("message", msg)
+    add("message", msg + b"\x00\x01")
+    add("message", st(b"") + st(good) + st(b""))
+    add("message", st(b"\x01") + st(good + b"\x00") + st(b"\x02"))               # share chunk longer than the share
+    add("message", st(b"\x01") + st(good[:-1]) + st(b"\x02"))
+    add("message", st(b"\x01") + st(mk_share(2, le(P) + le(1), b"", b"")) + st(b"\x02"))
+    for n in range(0, len(msg), 1 if tier != "quick" else 5):
+        add("message", msg[:n])
+    for off in (0, 4 + 5, 4 + 5 + 4 + len(good)):
+        for v in (0, 3, 4, 0xffffffff, 0xfffffffc, len(msg)):
+            m = bytearray(msg)
+            m[off:off + 4] = (v & 0xffffffff).to_bytes(4, "little")
+            add("message", bytes(m))
+    return cases
+
+
 NATIVE_FAMILIES = {
+    "native::c08-decoders": c08_scenarios,
     "native::e2e-scenarios": lambda seed, tier: e2e_scenarios(seed, tier),
     "native::c03-lengths": c03_scenarios,
     "native::c04-triples": c04_scenarios,
